@@ -46,24 +46,55 @@ class PEval(object):
         self.max_depth = max_depth
         self.cls = cls          # class attributes read through self are evaluated (its own win over inherited ones)
 
-    def run(self, fnode, args=None, depth=0):
+    def run(self, fnode, args=None, depth=0, kwargs=None, module=None):
         env = {}
         a = fnode.args
         names = [x.arg for x in a.posonlyargs + a.args]
+        kwargs = dict(kwargs or {})
         if args is None:
             if names:
                 env[names[0]] = SelfObj()
             names = names[1:]
             args = []
-        if len(args) > len(names) or a.vararg or a.kwarg:
+        if len(args) > len(names) and not a.vararg:
             raise Unknown('argument binding')
         for n, v in zip(names, args):
             env[n] = v
+        if a.vararg:
+            env[a.vararg.arg] = tuple(args[len(names):])
         defaults = dict(zip(names[len(names) - len(a.defaults):], a.defaults))
-        for n in names[len(args):]:
+        for x, dv in zip(a.kwonlyargs, a.kw_defaults):
+            names.append(x.arg)
+            if dv is not None:
+                defaults[x.arg] = dv
+        for n in names[len(args):] if len(args) <= len(names) else []:
+            if n in kwargs:
+                env[n] = kwargs.pop(n)
+                continue
+            if n in env:
+                continue
             if n not in defaults:
                 raise Unknown('missing argument')
             env[n] = self.ev(defaults[n], {}, depth)
+        if kwargs:
+            if not a.kwarg:
+                raise Unknown('unexpected keyword')
+        if a.kwarg:
+            env[a.kwarg.arg] = kwargs
+        if module is not None and module is not self.module:
+            # a helper of a sibling module is evaluated against its own module-level names
+            sub = PEval(module, self.self_name, self.max_depth, None)
+            try:
+                sub.block(fnode.body, env, depth)
+            except _Return as r:
+                return r.v
+            except Unknown:
+                raise
+            except RecursionError:
+                raise Unknown('recursion')
+            except Exception as e:
+                raise Unknown('%s: %s' % (type(e).__name__, e))
+            return None
         try:
             self.block(fnode.body, env, depth)
         except _Return as r:
@@ -125,6 +156,14 @@ class PEval(object):
                 return self.ev(c, {}, depth)
             if n.id in self.module.functions:
                 return ('func', n.id)
+            origin = getattr(self.module, 'imports', {}).get(n.id)
+            repo = getattr(self.module, 'repo', None)
+            if origin and repo is not None:
+                parts = origin.lstrip('.').split('.')
+                for cand in reversed(parts[:-1]):
+                    m2 = repo.modules.get(cand)
+                    if m2 is not None and parts[-1] in m2.functions:
+                        return ('xfunc', cand, parts[-1])
             if n.id in ('tuple', 'list', 'len', 'range', 'reversed', 'sorted'):
                 return ('builtin', n.id)
             if n.id in ('True', 'False', 'None'):
@@ -219,9 +258,26 @@ class PEval(object):
             return self.comp(n, env, depth)
         if isinstance(n, ast.Call):
             f = self.ev(n.func, env, depth)
-            if n.keywords:
+            kwargs = {}
+            for k in n.keywords:
+                if k.arg is None:
+                    d_ = self.ev(k.value, env, depth)
+                    if not isinstance(d_, dict):
+                        raise Unknown('** of non-constant')
+                    kwargs.update(d_)
+                else:
+                    kwargs[k.arg] = self.ev(k.value, env, depth)
+            if kwargs and not (isinstance(f, tuple) and f and f[0] in ('func', 'xfunc')):
                 raise Unknown('keyword call')
-            args = [self.ev(a, env, depth) for a in n.args]
+            args = []
+            for a in n.args:
+                if isinstance(a, ast.Starred):
+                    v_ = self.ev(a.value, env, depth)
+                    if not isinstance(v_, (tuple, list)):
+                        raise Unknown('star')
+                    args.extend(v_)
+                else:
+                    args.append(self.ev(a, env, depth))
             if f == ('builtin', 'tuple') and len(args) <= 1:
                 return tuple(args[0]) if args else ()
             if f == ('builtin', 'list') and len(args) <= 1:
@@ -240,7 +296,12 @@ class PEval(object):
             if isinstance(f, tuple) and f and f[0] == 'func':
                 if depth >= self.max_depth:
                     raise Unknown('depth')
-                return self.run(self.module.functions[f[1]].node, args, depth + 1)
+                return self.run(self.module.functions[f[1]].node, args, depth + 1, kwargs)
+            if isinstance(f, tuple) and f and f[0] == 'xfunc':
+                if depth >= self.max_depth:
+                    raise Unknown('depth')
+                m2 = self.module.repo.modules[f[1]]
+                return self.run(m2.functions[f[2]].node, args, depth + 1, kwargs, module=m2)
             raise Unknown('call')
         if isinstance(n, ast.Compare) and len(n.ops) == 1:
             a, b = self.ev(n.left, env, depth), self.ev(n.comparators[0], env, depth)
